@@ -56,6 +56,7 @@ FreshState ==
    slog   |-> <<>>,   \* allocations currently on the stack, oldest first: [id, n, sz, al, b, off]
    expect |-> <<>>,   \* after an unwind: what a repetition of the requests must return
    eidx   |-> 1,
+   taint  |-> -1,     \* id of the last stack allocation before a failed request that changed the stack's state (-1: none)
    snap   |-> {},     \* upstream blocks that were outstanding when the previous API call returned
    over   |-> FALSE]  \* execution ended abnormally
 
@@ -158,6 +159,12 @@ OnAlloc(e) ==
                !.objs[e.o + 1].curblk = IF ok THEN e.b ELSE IF o.fam = "stack" /\ ~e.t THEN -1 ELSE @,
                !.objs[e.o + 1].caps = IF o.fam = "iter" /\ ok THEN [@ EXCEPT ![(e.g % o.N) + 1] = e.cap1] ELSE @,
                !.slog = IF ok /\ o.fam = "stack" THEN Append(@, [id |-> e.id, n |-> e.n, sz |-> e.sz, al |-> e.al, op |-> e.op, t |-> e.t, b |-> e.b, off |-> e.off]) ELSE @,
+               \* a request that failed AFTER the stack had moved on to its next (cached) block is part of the history
+               \* although it is not in slog: replay expectations across it would compare different sequences
+               !.taint = IF o.fam = "stack" /\ ~ok /\ e.cap1 # e.cap0
+                         THEN LET at == IF st.slog = <<>> THEN 0 ELSE st.slog[Len(st.slog)].id
+                              IN IF @ >= 0 /\ @ < at THEN @ ELSE at
+                         ELSE @,
                !.expect = IF ok /\ sameReq THEN @ ELSE <<>>,
                !.eidx = IF ok /\ sameReq THEN @ + 1 ELSE 1]
   IN Result(nst,
@@ -254,7 +261,9 @@ OnUnwind(e) ==
       dying == {a \in st.live : a.o = e.o /\ a.id > e.wm}
       keep == SelectSeq(st.slog, LAMBDA r : r.id <= e.wm)
       gone == SelectSeq(st.slog, LAMBDA r : r.id > e.wm)
-      nst == [st EXCEPT !.live = @ \ dying, !.slog = keep, !.expect = gone, !.eidx = 1,
+      clean == st.taint < 0 \/ e.wm > st.taint
+      nst == [st EXCEPT !.live = @ \ dying, !.slog = keep, !.expect = IF clean THEN gone ELSE <<>>, !.eidx = 1,
+                        !.taint = IF @ >= 0 /\ e.wm < @ THEN -1 ELSE @,
                         !.objs[e.o + 1].curblk = mk.blk, !.pend = <<>>, !.inj = 0]
   IN Result(nst,
        Chk(e.r = "ok", "C06", "UnwindNeverThrows", <<e.r>>)
